@@ -62,17 +62,56 @@ func c19ClientFilter(c *Ctx) {
 		return
 	}
 	read := findCall(fn, func(c *ssa.Call) bool { return c.Call.IsInvoke() && c.Call.Method.Name() == "ReadFrom" })
-	ipEq := findCall(fn, func(c *ssa.Call) bool {
-		return core.CalleeObjName(c) == "net.IP.Equal" && strings.HasSuffix(core.PathOf(c.Call.Args[0]), ".readIP")
-	})
-	if read == nil || ipEq == nil {
+	if read == nil {
 		r.Fail("C19/UDP-FILTER-CLIENT", "clientUDPListener.run source IP test", p.Pos(fn.Pos()), "ReadFrom or the readIP.Equal test is gone")
 		return
 	}
-	// the compared address must come from ReadFrom
-	fromRead := strings.Contains(condString(ipEq.Call.Args[1], 0), read.Name()) || derivesFrom(ipEq.Call.Args[1], read, 0)
-	ipIf, ipTrue := boolEdges(ipEq)
 	readPortF := p.Field("", "clientUDPListener", "readPort")
+	// fromRead: v is computed from the address ReadFrom returned (through extracts, assertions, field
+	// loads; through the parameter of a helper that was handed it)
+	var fromRead func(v ssa.Value, res func(ssa.Value) ssa.Value, d int) bool
+	fromRead = func(v ssa.Value, res func(ssa.Value) ssa.Value, d int) bool {
+		if d > 10 || v == nil {
+			return false
+		}
+		if v == ssa.Value(read) {
+			return true
+		}
+		switch x := v.(type) {
+		case *ssa.Parameter:
+			if w := res(x); w != ssa.Value(x) {
+				return fromRead(w, func(v ssa.Value) ssa.Value { return v }, d+1)
+			}
+		case *ssa.Extract:
+			return fromRead(x.Tuple, res, d+1)
+		case *ssa.TypeAssert:
+			return fromRead(x.X, res, d+1)
+		case *ssa.ChangeType:
+			return fromRead(x.X, res, d+1)
+		case *ssa.ChangeInterface:
+			return fromRead(x.X, res, d+1)
+		case *ssa.UnOp:
+			return fromRead(x.X, res, d+1)
+		case *ssa.FieldAddr:
+			return fromRead(x.X, res, d+1)
+		case *ssa.Field:
+			return fromRead(x.X, res, d+1)
+		case *ssa.Phi:
+			for _, e := range x.Edges {
+				if !fromRead(e, res, d+1) {
+					return false
+				}
+			}
+			return len(x.Edges) > 0
+		}
+		return false
+	}
+	const (
+		ipOK   = 1 // the datagram's IP equals the negotiated one
+		portOK = 2 // its port equals the negotiated one, or was just bound
+		anyOK  = 4 // AnyPortEnable is known to be set
+		unset  = 8 // readPort is known to be 0
+	)
 	// side effects to protect
 	isTarget := func(in ssa.Instruction) bool {
 		ci, ok := in.(*ssa.Call)
@@ -90,100 +129,128 @@ func c19ClientFilter(c *Ctx) {
 		}
 		return false
 	}
-	ntarget := 0
-	for _, b := range fn.Blocks {
-		for _, in := range b.Instrs {
-			if isTarget(in) {
-				ntarget++
-			}
-		}
-	}
-	if ipIf == nil || !fromRead || ntarget < 2 {
-		r.Fail("C19/UDP-FILTER-CLIENT", "clientUDPListener.run source IP test", p.Pos(ipEq.Pos()), fmt.Sprintf("shape not recognised (branch on Equal=%v, address from ReadFrom=%v, protected effects=%d)", ipIf != nil, fromRead, ntarget))
-		return
-	}
-	// for the IP filter every write to the listener's own state counts as an effect too: the
-	// first-packet port binding must not be taken from a datagram of another address
-	isEffectIP := func(in ssa.Instruction) bool {
-		if isTarget(in) {
-			return true
-		}
-		if st, ok := in.(*ssa.Store); ok {
-			if fa, ok := st.Addr.(*ssa.FieldAddr); ok && len(fn.Params) > 0 && fa.X == ssa.Value(fn.Params[0]) {
-				return true
-			}
-		}
-		return false
-	}
-	leakIP, path, _ := core.PathAvoidingE(fn, read, isEffectIP, nil, func(a, b *ssa.BasicBlock) bool {
-		return a == ipIf.Block() && b == ipIf.Block().Succs[ipTrue]
-	})
-	// the branch must be on every path: no way from read to a target that bypasses the If block altogether is implied by the edge filter only if
-	// all paths go through ipIf.Block(); check separately
-	bypass, path0, _ := core.PathAvoiding(fn, read, isEffectIP, func(x ssa.Instruction) bool { return x == ssa.Instruction(ipIf) })
-	if leakIP || bypass {
-		pp := path
-		if bypass {
-			pp = path0
-		}
-		r.FailPath("C19/UDP-FILTER-CLIENT", "source IP filter before any effect", p.Pos(ipEq.Pos()), "a datagram from another IP address can update the last-packet time, bind the listener's port or reach the callback", core.BlockPath(p, fn, pp))
-	} else {
-		r.OK("C19/UDP-FILTER-CLIENT", "source IP filter before any effect", p.Pos(ipEq.Pos()), "effects reachable only through readIP.Equal(src) == true")
-	}
-	// port: validated by the false edge of (readPort != src.Port) or by the store readPort = src.Port
-	var portIf *ssa.If
-	for _, b := range fn.Blocks {
-		if len(b.Instrs) == 0 {
-			continue
-		}
-		iff, ok := b.Instrs[len(b.Instrs)-1].(*ssa.If)
-		if !ok {
-			continue
-		}
-		bo, ok := iff.Cond.(*ssa.BinOp)
-		if !ok || bo.Op != token.NEQ {
-			continue
-		}
-		if strings.HasSuffix(core.PathOf(bo.X), ".readPort") && strings.HasSuffix(core.PathOf(bo.Y), ".Port") ||
-			strings.HasSuffix(core.PathOf(bo.Y), ".readPort") && strings.HasSuffix(core.PathOf(bo.X), ".Port") {
-			portIf = iff
-		}
-	}
-	isBind := func(in ssa.Instruction) bool {
+	isBind := func(in ssa.Instruction, res func(ssa.Value) ssa.Value) bool {
 		st, ok := in.(*ssa.Store)
 		if !ok {
 			return false
 		}
 		fa, ok := st.Addr.(*ssa.FieldAddr)
-		return ok && core.FieldOfAddr(fa) == readPortF && strings.HasSuffix(core.PathOf(st.Val), ".Port")
+		return ok && core.SameField(core.FieldOfAddr(fa), readPortF) && strings.HasSuffix(core.PathOf(st.Val), ".Port") && fromRead(st.Val, res, 0)
 	}
-	if portIf == nil {
-		r.Fail("C19/UDP-FILTER-CLIENT", "source port filter before any effect", p.Pos(fn.Pos()), "the comparison of the source port with the negotiated port is gone")
-		return
+	ff := &factFlow{}
+	ff.inline = func(h *ssa.Function) bool { return h.Pkg == fn.Pkg && !token.IsExported(h.Name()) && len(h.Blocks) <= 30 }
+	nIPTests, nPortTests := 0, 0
+	ff.onEdge = func(cond ssa.Value, pol bool, res func(ssa.Value) ssa.Value) (uint, uint) {
+		switch x := cond.(type) {
+		case *ssa.Call:
+			if core.CalleeObjName(x) == "net.IP.Equal" && len(x.Call.Args) == 2 {
+				a, b := x.Call.Args[0], x.Call.Args[1]
+				if strings.HasSuffix(core.PathOf(b), ".readIP") {
+					a, b = b, a
+				}
+				if strings.HasSuffix(core.PathOf(a), ".readIP") && fromRead(b, res, 0) {
+					nIPTests++
+					if pol {
+						return ipOK, 0
+					}
+				}
+			}
+		case *ssa.UnOp:
+			if x.Op == token.MUL && strings.HasSuffix(core.PathOf(x), ".AnyPortEnable") && pol {
+				return anyOK, 0
+			}
+		case *ssa.BinOp:
+			if x.Op != token.EQL && x.Op != token.NEQ {
+				return 0, 0
+			}
+			equal := (x.Op == token.EQL) == pol
+			px, py := core.PathOf(x.X), core.PathOf(x.Y)
+			if strings.HasSuffix(py, ".readPort") {
+				px, py = py, px
+				x = &ssa.BinOp{Op: x.Op, X: x.Y, Y: x.X}
+			}
+			if !strings.HasSuffix(px, ".readPort") {
+				return 0, 0
+			}
+			if constIs(x.Y, 0) {
+				if equal {
+					return unset, 0
+				}
+				return 0, unset
+			}
+			if strings.HasSuffix(py, ".Port") && fromRead(x.Y, res, 0) {
+				nPortTests++
+				if equal {
+					return portOK, 0
+				}
+			}
+		}
+		return 0, 0
 	}
-	leakPort, path2, _ := core.PathAvoidingE(fn, read, isTarget, isBind, func(a, b *ssa.BasicBlock) bool {
-		return a == portIf.Block() && b == portIf.Block().Succs[1]
-	})
-	// the binding store must itself be under AnyPortEnable && readPort == 0
-	bindOK := true
-	for _, b := range fn.Blocks {
-		for _, in := range b.Instrs {
-			if !isBind(in) {
-				continue
+	ff.onInstr = func(in ssa.Instruction, res func(ssa.Value) ssa.Value) (uint, uint) {
+		if in == ssa.Instruction(read) {
+			return 0, ipOK | portOK | unset // a new datagram: nothing is known about it yet
+		}
+		if isBind(in, res) {
+			return portOK, unset
+		}
+		return 0, 0
+	}
+	ntarget := 0
+	seenTarget := map[ssa.Instruction]bool{}
+	var leakIP, leakPort, badBind string
+	ff.check = func(in ssa.Instruction, state factSet, res func(ssa.Value) ssa.Value) {
+		switch {
+		case isTarget(in):
+			if !seenTarget[in] {
+				seenTarget[in] = true
+				ntarget++
 			}
-			s := ""
-			for _, cd := range core.Conds(b) {
-				s += condString(cd.V, 0) + fmt.Sprint(cd.Pol) + ";"
+			if !state.holds(ipOK) && leakIP == "" {
+				leakIP = p.Pos(in.Pos())
 			}
-			if !strings.Contains(s, "AnyPortEnable") || !strings.Contains(s, "readPort") {
-				bindOK = false
+			if !state.holds(portOK) && leakPort == "" {
+				leakPort = p.Pos(in.Pos())
+			}
+		case isBind(in, res):
+			if !state.holds(ipOK) && leakIP == "" {
+				leakIP = p.Pos(in.Pos())
+			}
+			if !state.holds(anyOK|unset) && badBind == "" {
+				badBind = p.Pos(in.Pos())
+			}
+		default:
+			// any other write to the listener's own state from a datagram of another address
+			if st, ok := in.(*ssa.Store); ok && in.Parent() == fn {
+				if fa, ok := st.Addr.(*ssa.FieldAddr); ok && len(fn.Params) > 0 && fa.X == ssa.Value(fn.Params[0]) {
+					if reach, _, _ := core.PathAvoiding(fn, read, func(x ssa.Instruction) bool { return x == in }, nil); reach && !state.holds(ipOK) && leakIP == "" {
+						leakIP = p.Pos(in.Pos())
+					}
+				}
 			}
 		}
 	}
-	if leakPort || !bindOK {
-		r.FailPath("C19/UDP-FILTER-CLIENT", "source port filter before any effect", p.Pos(portIf.Pos()), fmt.Sprintf("a datagram from another port can take effect (leak=%v, first-packet binding only under AnyPortEnable && readPort == 0 = %v)", leakPort, bindOK), core.BlockPath(p, fn, path2))
+	ff.run(fn, 0)
+	if nIPTests == 0 || ntarget < 2 {
+		r.Fail("C19/UDP-FILTER-CLIENT", "clientUDPListener.run source IP test", p.Pos(fn.Pos()), fmt.Sprintf("ReadFrom or the readIP.Equal test is gone (tests of the datagram's IP against readIP=%d, protected effects=%d)", nIPTests, ntarget))
+		return
+	}
+	if leakIP != "" {
+		r.Fail("C19/UDP-FILTER-CLIENT", "source IP filter before any effect", leakIP, "a datagram from another IP address can update the last-packet time, bind the listener's port or reach the callback")
 	} else {
-		r.OK("C19/UDP-FILTER-CLIENT", "source port filter before any effect", p.Pos(portIf.Pos()), "effects reachable only with src.Port == readPort, or after binding readPort on the first packet under AnyPortEnable")
+		r.OK("C19/UDP-FILTER-CLIENT", "source IP filter before any effect", p.Pos(fn.Pos()), "effects reachable only through readIP.Equal(src) == true")
+	}
+	switch {
+	case nPortTests == 0:
+		r.Fail("C19/UDP-FILTER-CLIENT", "source port filter before any effect", p.Pos(fn.Pos()), "the comparison of the source port with the negotiated port is gone")
+	case leakPort != "" || badBind != "":
+		pos := leakPort
+		if pos == "" {
+			pos = badBind
+		}
+		r.Fail("C19/UDP-FILTER-CLIENT", "source port filter before any effect", pos, fmt.Sprintf("a datagram from another port can take effect (leak=%v, first-packet binding only under AnyPortEnable && readPort == 0 = %v)", leakPort != "", badBind == ""))
+	default:
+		r.OK("C19/UDP-FILTER-CLIENT", "source port filter before any effect", p.Pos(fn.Pos()), "effects reachable only with src.Port == readPort, or after binding readPort on the first packet under AnyPortEnable")
 	}
 }
 
@@ -226,7 +293,82 @@ func c19ServerLookup(c *Ctx) {
 	if !r.Anchor("C19/UDP-FILTER-SERVER", "serverUDPListener.run", run != nil) {
 		return
 	}
-	fns := append([]*ssa.Function{run}, run.AnonFuncs...)
+	// the loop body may be a closure or a method of the listener called from the loop
+	var fns []*ssa.Function
+	for _, fn := range withHelpers(run, 2) {
+		fns = append(fns, fn)
+		fns = append(fns, fn.AnonFuncs...)
+	}
+	// both address parts of the datagram reach the key: the function that builds the key (a method
+	// filling a local, or a constructor) is given X.IP and X.Port of one address and uses both
+	usesParams := func(h *ssa.Function, idx ...int) bool {
+		if h == nil || h.Blocks == nil {
+			return false
+		}
+		for _, i := range idx {
+			if i >= len(h.Params) {
+				return false
+			}
+			used := false
+			for _, b := range h.Blocks {
+				for _, in := range b.Instrs {
+					for _, op := range in.Operands(nil) {
+						if *op == ssa.Value(h.Params[i]) {
+							used = true
+						}
+					}
+				}
+			}
+			if !used {
+				return false
+			}
+		}
+		return true
+	}
+	ipPortArgs := func(args []ssa.Value) (int, int, bool) {
+		for i := range args {
+			for j := range args {
+				a1, a2 := core.PathOf(args[i]), core.PathOf(args[j])
+				if i != j && strings.HasSuffix(a1, ".IP") && strings.HasSuffix(a2, ".Port") && strings.TrimSuffix(a1, ".IP") == strings.TrimSuffix(a2, ".Port") {
+					return i, j, true
+				}
+			}
+		}
+		return 0, 0, false
+	}
+	keyFrom := func(call *ssa.Call) bool {
+		h := call.Call.StaticCallee()
+		i, j, ok := ipPortArgs(call.Call.Args)
+		return ok && h != nil && usesParams(h, i, j)
+	}
+	var keyBuilt func(v ssa.Value, depth int) bool
+	keyBuilt = func(v ssa.Value, depth int) bool {
+		if depth > 3 {
+			return false
+		}
+		switch x := v.(type) {
+		case *ssa.Call:
+			return keyFrom(x)
+		case *ssa.UnOp:
+			al, ok := x.X.(*ssa.Alloc)
+			if !ok {
+				return false
+			}
+			for _, rr := range *al.Referrers() {
+				switch y := rr.(type) {
+				case *ssa.Call: // key.fill(ip, port)
+					if keyFrom(y) {
+						return true
+					}
+				case *ssa.Store: // key := newKey(ip, port)
+					if y.Addr == ssa.Value(al) && keyBuilt(y.Val, depth+1) {
+						return true
+					}
+				}
+			}
+		}
+		return false
+	}
 	ncb := 0
 	for _, fn := range fns {
 		for _, b := range fn.Blocks {
@@ -245,12 +387,11 @@ func c19ServerLookup(c *Ctx) {
 					lk, _ = ex.Tuple.(*ssa.Lookup)
 				}
 				if lk == nil || !lk.CommaOk || !strings.HasSuffix(core.PathOf(lk.X), ".clients") {
-					// createNewBuffer() closure call is static; anything else is unexpected
-					if mc, isMC := ci.Call.Value.(*ssa.MakeClosure); isMC {
-						_ = mc
+					// a buffer factory (closure or function value) is not a delivery
+					if _, isMC := ci.Call.Value.(*ssa.MakeClosure); isMC {
 						continue
 					}
-					if strings.Contains(core.PathOf(ci.Call.Value), "createNewBuffer") {
+					if sig, isSig := ci.Call.Value.Type().Underlying().(*types.Signature); isSig && sig.Params().Len() == 0 {
 						continue
 					}
 					r.Fail("C19/UDP-FILTER-SERVER", "serverUDPListener.run invokes an unknown callback", p.Pos(ci.Pos()), "a function value that does not come from the clients lookup is called with the datagram")
@@ -264,44 +405,13 @@ func c19ServerLookup(c *Ctx) {
 						onOK = true
 					}
 				}
-				// key: a local clientAddr filled from the datagram's address
-				keyOK := false
-				if u, ok := lk.Index.(*ssa.UnOp); ok {
-					if al, ok := u.X.(*ssa.Alloc); ok {
-						for _, rr := range *al.Referrers() {
-							if fc, ok := rr.(*ssa.Call); ok && fc.Call.StaticCallee() != nil && core.FnName(fc.Call.StaticCallee()) == "fill" && len(fc.Call.Args) == 3 {
-								a1, a2 := core.PathOf(fc.Call.Args[1]), core.PathOf(fc.Call.Args[2])
-								if strings.HasSuffix(a1, ".IP") && strings.HasSuffix(a2, ".Port") && strings.TrimSuffix(a1, ".IP") == strings.TrimSuffix(a2, ".Port") {
-									keyOK = true
-								}
-							}
-						}
-					}
-				}
+				keyOK := keyBuilt(lk.Index, 0)
 				r.Check(onOK && keyOK, "C19/UDP-FILTER-SERVER", "serverUDPListener.run delivers to the registered (IP, port) only", p.Pos(ci.Pos()), "callback = clients[{src.IP, src.Port}] on the ok edge", fmt.Sprintf("the callback is invoked without an exact (IP, port) match (on ok edge=%v, key built from the datagram's IP and port=%v)", onOK, keyOK))
 			}
 		}
 	}
 	if ncb == 0 {
 		r.Fail("C19/UDP-FILTER-SERVER", "serverUDPListener.run delivers", p.Pos(run.Pos()), "no delivery through the clients table found")
-	}
-	// fill() must use both ip and port
-	fill := p.Func("", "clientAddr.fill")
-	if r.Anchor("C19/UDP-FILTER-SERVER", "clientAddr.fill", fill != nil) {
-		usesIP, usesPort := false, false
-		for _, b := range fill.Blocks {
-			for _, in := range b.Instrs {
-				for _, op := range in.Operands(nil) {
-					if *op == ssa.Value(fill.Params[1]) {
-						usesIP = true
-					}
-					if *op == ssa.Value(fill.Params[2]) {
-						usesPort = true
-					}
-				}
-			}
-		}
-		r.Check(usesIP && usesPort, "C19/UDP-FILTER-SERVER", "clientAddr.fill keys on IP and port", p.Pos(fill.Pos()), "both parameters contribute to the key", "the lookup key ignores the IP or the port")
 	}
 }
 
